@@ -86,6 +86,17 @@ Proof.
            (writer_params_ok e v H) Hex M).
   now apply roundtrip_writer.
 Qed.
+Lemma key_looks_only_at k : looks_only_at (key_from_map k) [key_pid k].
+Proof. intros m m' H. now apply key_from_map_ext. Qed.
+Lemma unknown_skipped_key e k g extra ps' :
+  guid_ok g -> Forall (foreign [key_pid k]) extra -> Merge (key_to_params k g) extra ps' ->
+  decode_key e k (enc_pl e ps') = Ok g.
+Proof.
+  intros H Hex M. unfold decode_key.
+  apply (with_pl_roundtrip_foreign e _ [key_pid k] _ extra ps' g (key_looks_only_at k)
+           (key_params_ok k g H) Hex M).
+  now apply roundtrip_key.
+Qed.
 Lemma unknown_skipped_topic e v extra ps' :
   topic_ok v -> Forall (foreign topic_pids) extra -> Merge (topic_to_params e v) extra ps' ->
   decode_topic e (enc_pl e ps') = Ok v.
@@ -147,7 +158,8 @@ Lemma spdp_defaults e m v :
   (m PID_DEFAULT_MULTICAST_LOCATOR = [] -> sp_default_multicast_locators v = []) /\
   (m PID_PARTICIPANT_LEASE_DURATION = [] -> sp_lease_duration v = None) /\
   (m PID_BUILTIN_ENDPOINT_QOS = [] -> sp_builtin_endpoint_qos v = None) /\
-  (m PID_ENTITY_NAME = [] -> sp_entity_name v = None).
+  (m PID_ENTITY_NAME = [] -> sp_entity_name v = None) /\
+  (m PID_PARTICIPANT_SECURITY_INFO = [] -> sp_security_info v = None).
 Proof.
   unfold spdp_from_map. intros H.
   repeat (apply obind_some in H; destruct H as (? & ? & H)).
@@ -187,6 +199,7 @@ Lemma reader_defaults e m v :
   (m PID_MULTICAST_LOCATOR = [] -> rd_multicast v = []) /\
   (m PID_PARTICIPANT_GUID = [] -> rd_participant_key v = None) /\
   (m PID_CONTENT_FILTER_PROPERTY = [] -> rd_content_filter v = None) /\
+  (m PID_ENDPOINT_SECURITY_INFO = [] -> rd_security_info v = None) /\
   qos_defaults_m m (rd_qos v).
 Proof.
   unfold reader_from_map. intros H.
@@ -209,6 +222,7 @@ Lemma writer_defaults e m v :
   (m PID_SERVICE_INSTANCE_NAME = [] -> wd_service_instance_name v = None) /\
   (m PID_RELATED_ENTITY_GUID = [] -> wd_related_datareader_key v = None) /\
   (m PID_TOPIC_ALIASES = [] -> wd_topic_aliases v = None) /\
+  (m PID_ENDPOINT_SECURITY_INFO = [] -> wd_security_info v = None) /\
   qos_defaults_m m (wd_qos v).
 Proof.
   unfold writer_from_map. intros H.
@@ -284,10 +298,15 @@ Lemma oallb_sound {A} (p : A -> bool) (P : A -> Prop) o :
   (forall a, p a = true -> P a) -> oallb p o = true -> oall P o.
 Proof. intros H. destruct o; cbn; auto. Qed.
 
+Lemma secinfo_okb_spec allowed s : secinfo_okb allowed s = true -> secinfo_ok allowed s.
+Proof.
+  unfold secinfo_okb, secinfo_ok. rewrite !andb_true_iff, Z.eqb_eq, !u32_okb_spec. tauto.
+Qed.
+
 Lemma spdp_okb_spec v : spdp_okb v = true -> spdp_ok v.
 Proof.
   unfold spdp_okb, spdp_ok. rewrite !andb_true_iff, Z.eqb_eq.
-  intros (((((((((H1 & H2) & H3) & H4) & H5) & H6) & H7) & H8) & H9) & H10).
+  intros ((((((((((H1 & H2) & H3) & H4) & H5) & H6) & H7) & H8) & H9) & H10) & H11).
   repeat match goal with |- _ /\ _ => split end;
     try (eapply forallb_Forall; [apply locator_okb_spec | eassumption]).
   - exact H1.
@@ -296,6 +315,7 @@ Proof.
   - now apply i32_okb_spec.
   - eapply oallb_sound; [|exact H9]. intros a. apply u32_okb_spec.
   - eapply oallb_sound; [|exact H10]. apply pstring_okb_spec.
+  - eapply oallb_sound; [|exact H11]. apply secinfo_okb_spec.
 Qed.
 
 Lemma guid_okb_spec g : guid_okb g = true -> guid_ok g.
@@ -317,7 +337,7 @@ Proof. destruct d; [auto|discriminate]. Qed.
 Lemma reader_okb_spec v : reader_okb v = true -> reader_ok v.
 Proof.
   unfold reader_okb, reader_ok. rewrite !andb_true_iff.
-  intros ((((((((((H1 & H2) & H3) & H4) & H5) & H6) & H7) & H8) & H9) & H10) & H11).
+  intros (((((((((((H1 & H2) & H3) & H4) & H5) & H6) & H7) & H8) & H9) & H10) & H11) & H12).
   repeat match goal with |- _ /\ _ => split end;
     try (eapply forallb_Forall; [apply locator_okb_spec | eassumption]);
     auto using guid_okb_spec, pstring_okb_spec, is_none_true.
@@ -325,6 +345,7 @@ Proof.
   - eapply oallb_sound; [apply guid_okb_spec | exact H5].
   - now apply qos_okb_spec.
   - eapply oallb_sound; [apply cfp_okb_spec | exact H11].
+  - eapply oallb_sound; [apply secinfo_okb_spec | exact H12].
 Qed.
 
 Lemma aliases_okb_spec l : aliases_okb l = true -> aliases_ok l.
@@ -337,7 +358,7 @@ Qed.
 Lemma writer_okb_spec v : writer_okb v = true -> writer_ok v.
 Proof.
   unfold writer_okb, writer_ok. rewrite !andb_true_iff.
-  intros (((((((((((((H1 & H2) & H3) & H4) & H5) & H6) & H7) & H8) & H9) & H10) & H11) & H12) & H13) & H14).
+  intros ((((((((((((((H1 & H2) & H3) & H4) & H5) & H6) & H7) & H8) & H9) & H10) & H11) & H12) & H13) & H14) & H15).
   repeat match goal with |- _ /\ _ => split end;
     try (eapply forallb_Forall; [apply locator_okb_spec | eassumption]);
     auto using guid_okb_spec, pstring_okb_spec, is_none_true.
@@ -348,6 +369,7 @@ Proof.
   - eapply oallb_sound; [apply pstring_okb_spec | exact H12].
   - eapply oallb_sound; [apply guid_okb_spec | exact H13].
   - eapply oallb_sound; [apply aliases_okb_spec | exact H14].
+  - eapply oallb_sound; [apply secinfo_okb_spec | exact H15].
 Qed.
 
 Lemma topic_okb_spec v : topic_okb v = true -> topic_ok v.
@@ -365,7 +387,7 @@ Proof. unfold pmd_okb, pmd_ok. rewrite !andb_true_iff, !Z.eqb_eq, Z.ltb_lt. taut
 Lemma value_okb_spec v : value_okb v = true -> value_ok v.
 Proof.
   destruct v; [apply qos_okb_spec | apply spdp_okb_spec | apply reader_okb_spec | apply writer_okb_spec
-              | apply topic_okb_spec | apply pmd_okb_spec].
+              | apply topic_okb_spec | apply pmd_okb_spec | apply guid_okb_spec].
 Qed.
 
 Lemma foreign_okb_spec k p : foreign_okb k p = true -> foreign (known_pids k) p.
@@ -426,7 +448,8 @@ Definition spdp_defaults_ok (Ab : Z -> Prop) (v : spdp) : Prop :=
   (Ab PID_DEFAULT_MULTICAST_LOCATOR -> sp_default_multicast_locators v = []) /\
   (Ab PID_PARTICIPANT_LEASE_DURATION -> sp_lease_duration v = None) /\
   (Ab PID_BUILTIN_ENDPOINT_QOS -> sp_builtin_endpoint_qos v = None) /\
-  (Ab PID_ENTITY_NAME -> sp_entity_name v = None).
+  (Ab PID_ENTITY_NAME -> sp_entity_name v = None) /\
+  (Ab PID_PARTICIPANT_SECURITY_INFO -> sp_security_info v = None).
 
 Definition reader_defaults_ok (Ab : Z -> Prop) (v : reader_data) : Prop :=
   (Ab PID_EXPECTS_INLINE_QOS -> rd_expects_inline_qos v = false) /\
@@ -434,6 +457,7 @@ Definition reader_defaults_ok (Ab : Z -> Prop) (v : reader_data) : Prop :=
   (Ab PID_MULTICAST_LOCATOR -> rd_multicast v = []) /\
   (Ab PID_PARTICIPANT_GUID -> rd_participant_key v = None) /\
   (Ab PID_CONTENT_FILTER_PROPERTY -> rd_content_filter v = None) /\
+  (Ab PID_ENDPOINT_SECURITY_INFO -> rd_security_info v = None) /\
   qos_defaults_ok Ab (rd_qos v).
 Definition writer_defaults_ok (Ab : Z -> Prop) (v : writer_data) : Prop :=
   (Ab PID_UNICAST_LOCATOR -> wd_unicast v = []) /\
@@ -443,6 +467,7 @@ Definition writer_defaults_ok (Ab : Z -> Prop) (v : writer_data) : Prop :=
   (Ab PID_SERVICE_INSTANCE_NAME -> wd_service_instance_name v = None) /\
   (Ab PID_RELATED_ENTITY_GUID -> wd_related_datareader_key v = None) /\
   (Ab PID_TOPIC_ALIASES -> wd_topic_aliases v = None) /\
+  (Ab PID_ENDPOINT_SECURITY_INFO -> wd_security_info v = None) /\
   qos_defaults_ok Ab (wd_qos v).
 Definition topic_defaults_ok (Ab : Z -> Prop) (v : topic_data) : Prop :=
   (Ab PID_ENDPOINT_GUID -> td_key v = None) /\ qos_defaults_ok Ab (td_qos v).
@@ -455,6 +480,7 @@ Definition defaults_ok (Ab : Z -> Prop) (v : value) : Prop :=
   | VWriter w => writer_defaults_ok Ab w
   | VTopic t => topic_defaults_ok Ab t
   | VPmd _ => True
+  | VKey _ _ => True
   end.
 
 Lemma is_none_spec {A} (o : option A) : is_none o = true <-> o = None.
@@ -514,7 +540,7 @@ Lemma defaults_okb_spec ab Ab v :
 Proof.
   intros H. destruct v; cbn [defaults_okb defaults_ok];
     [now apply qos_defaults_okb_spec | now apply spdp_defaults_okb_spec | now apply reader_defaults_okb_spec
-    | now apply writer_defaults_okb_spec | now apply topic_defaults_okb_spec | tauto].
+    | now apply writer_defaults_okb_spec | now apply topic_defaults_okb_spec | tauto | tauto].
 Qed.
 
 (* what the property demands of an observation *)
@@ -564,7 +590,7 @@ Qed.
 
 Lemma decode_defaults e k bs v : decode e k bs = Ok v -> defaults_ok (Absent e bs) v.
 Proof.
-  destruct k; unfold decode, decode_qos, decode_spdp, decode_reader, decode_writer, decode_topic, with_pl.
+  destruct k as [| | | | | |kk]; unfold decode, decode_qos, decode_spdp, decode_reader, decode_writer, decode_topic, with_pl.
   1-5: destruct (dec_pl e bs) as [ps| |] eqn:D; cbn [omap]; try discriminate.
   - destruct (qos_from_map e (lookup_all ps)) as [q|] eqn:Q; cbn [omap]; try discriminate.
     intros H. inversion H; subst. cbn [defaults_ok].
@@ -579,7 +605,7 @@ Proof.
     intros H. inversion H; subst. cbn [defaults_ok].
     pose proof (reader_defaults e _ _ Q) as Hd. unfold reader_defaults_ok.
     pose proof (absent_lookup e bs ps) as A.
-    destruct Hd as (H1 & H2 & H3 & H4 & H5 & H6).
+    destruct Hd as (H1 & H2 & H3 & H4 & H5 & H6 & H7).
     repeat match goal with |- _ /\ _ => split end;
       try (intros Hab; apply (A _ D) in Hab; auto).
     now apply (qos_defaults_m_ok e bs ps).
@@ -587,7 +613,7 @@ Proof.
     intros H. inversion H; subst. cbn [defaults_ok].
     pose proof (writer_defaults e _ _ Q) as Hd. unfold writer_defaults_ok.
     pose proof (absent_lookup e bs ps) as A.
-    destruct Hd as (H1 & H2 & H3 & H4 & H5 & H6 & H7 & H8).
+    destruct Hd as (H1 & H2 & H3 & H4 & H5 & H6 & H7 & H8 & H9).
     repeat match goal with |- _ /\ _ => split end;
       try (intros Hab; apply (A _ D) in Hab; auto).
     now apply (qos_defaults_m_ok e bs ps).
@@ -599,24 +625,27 @@ Proof.
     split; [intros Hab; apply (A _ D) in Hab; auto | now apply (qos_defaults_m_ok e bs ps)].
   - destruct (decode_pmd e bs); cbn [omap]; try discriminate.
     intros H. inversion H; subst. exact I.
+  - destruct (decode_key e kk bs); cbn [omap]; try discriminate.
+    intros H. inversion H; subst. exact I.
 Qed.
 
 Lemma decode_encode e v : value_ok v -> decode e (kind_of v) (encode e v []) = Ok v.
 Proof.
-  destruct v as [q|s|r|w|t|p]; intros H; unfold decode, encode, kind_of, to_params, insert_all; cbn [fold_left].
+  destruct v as [q|s|r|w|t|p|k g]; intros H; unfold decode, encode, kind_of, to_params, insert_all; cbn [fold_left].
   - change (enc_pl e (qos_to_params e q)) with (encode_qos e q). now rewrite roundtrip_qos.
   - change (enc_pl e (spdp_to_params e s)) with (encode_spdp e s). now rewrite roundtrip_spdp.
   - change (enc_pl e (reader_to_params e r)) with (encode_reader e r). now rewrite roundtrip_reader.
   - change (enc_pl e (writer_to_params e w)) with (encode_writer e w). now rewrite roundtrip_writer.
   - change (enc_pl e (topic_to_params e t)) with (encode_topic e t). now rewrite roundtrip_topic.
   - now rewrite roundtrip_pmd.
+  - change (enc_pl e (key_to_params k g)) with (encode_key e k g). now rewrite roundtrip_key.
 Qed.
 
 Lemma decode_encode_foreign e v ins :
   value_ok v -> Forall (foreign (known_pids (kind_of v))) (map snd ins) ->
   decode e (kind_of v) (encode e v ins) = Ok v.
 Proof.
-  destruct v as [q|s|r|w|t|p]; intros H Hins; unfold decode, encode, kind_of, to_params.
+  destruct v as [q|s|r|w|t|p|k g]; intros H Hins; unfold decode, encode, kind_of, to_params.
   - destruct (Merge_insert_all ins (qos_to_params e q)) as (r & M & HP).
     rewrite (unknown_skipped_qos e q r _ H (HP _ Hins) M). reflexivity.
   - destruct (Merge_insert_all ins (spdp_to_params e s)) as (r & M & HP).
@@ -628,6 +657,8 @@ Proof.
   - destruct (Merge_insert_all ins (topic_to_params e t)) as (r' & M & HP).
     rewrite (unknown_skipped_topic e t r' _ H (HP _ Hins) M). reflexivity.
   - now rewrite roundtrip_pmd.
+  - destruct (Merge_insert_all ins (key_to_params k g)) as (r' & M & HP).
+    rewrite (unknown_skipped_key e k g r' _ H (HP _ Hins) M). reflexivity.
 Qed.
 
 Lemma run_spec c : Spec c (run c).
